@@ -38,27 +38,36 @@ RULE = ("one evaluation = one (operand types by subsystem, dimensions by subsyst
 ASSUMPTIONS = [
     "factors are fixed generic physical objects per (type, subsystem rank, dimension) plus every ordered pair of the "
     "shared named alphabet for two subsystems; tensor_product is multilinear in the factor coefficients, so a "
-    "value-independent misplacement shows on generic factors (all factors pairwise different, guard-checked)",
+    "value-independent misplacement shows on generic factors (sensitivity of the oracle to order and axis swaps is guard-checked)",
     "cost wall of the implementation, not of the property: calc_permutation_matrix and CompositeSystem materialise "
     "dense prod(d_i^2)-square matrices, _tensor_product_hs_hs a dense (d1 d2)^2-square permutation; arrangements are "
-    "bounded by prod(d_i^2) <= 1296 (states, POVMs, ensembles, bases) and HS dimension <= 81 (gates, measurement processes)",
-    "elemental bases: normalised Pauli / Gell-Mann, and the normalised Hermitian basis (identity not first) for two subsystems",
-    "operands of one product live on single elemental systems (the quantifier's factors); joint multi-subsystem factors "
-    "arise only as intermediate products of the groupings",
-    "embedding: one qutrit into two qubits for all four types (catalogue + alphabet objects); two qutrits into four "
-    "qubits for states and POVMs in the thorough tier only",
+    "bounded by prod(d_i^2) <= 1296 (states, POVMs, ensembles, bases; i.e. 4 subsystems with at most two qutrits) and HS "
+    "dimension <= 81 (gates, measurement processes: three qubits, qubit x qutrit, qutrit x qutrit)",
+    "elemental bases: normalised Pauli / Gell-Mann, and the normalised Hermitian basis (identity not first) for two "
+    "(thorough: three) subsystems of states, POVMs and gates",
+    "joint (non-product) factors on two subsystems are explored against one single-subsystem factor in all three "
+    "interleavings of the names; otherwise multi-subsystem operands arise as intermediate products of the groupings",
+    "outcome layouts are judged against the shape the result itself reports (any consistent axis order is accepted)",
+    "embedding: one qutrit into two qubits for all four types (every 1-qutrit catalogue name + the shared alphabet); two "
+    "qutrits into four qubits for states and POVMs in the thorough tier only",
 ]
 BOUNDS = {
-    "quick": "2-3 subsystems: all dims in {2,3}, all name permutations, all groupings, varargs/list call forms for states, "
-             "POVMs; 4 subsystems with at most one qutrit for states and POVMs; gates/measurement processes: 2 subsystems "
-             "(2,2),(2,3),(3,2) all four type pairs, 3 qubits for 4 of the 8 type patterns; ensembles 2-3 subsystems; bases "
-             "2-4 factors; named-alphabet pairs; embedding of every 1-qutrit catalogue and alphabet object",
-    "thorough": "as quick plus: 4 subsystems with at most two qutrits (states, POVMs), ensembles on 4 qubits, qutrit x qutrit "
-                "channels, all 8 three-qubit channel type patterns, all named gate pairs, Hermitian-basis variant for 3 "
-                "subsystems, 2-qutrit -> 4-qubit embedding of states and POVMs",
+    "quick": "states, POVMs: 2-3 subsystems all dims in {2,3}, 4 subsystems with at most one qutrit, all name permutations, "
+             "all binary groupings, varargs/list/mixed call forms; gates/measurement processes: 2 subsystems (2,2),(2,3),(3,2) "
+             "all four type pairs, 3 qubits for the type patterns GGG MGM GMM MMM; ensembles: 2 subsystems all, 3 subsystems "
+             "dims (2,2,2),(2,3,2) all 7 type patterns; bases: 2 factors over 7 bases, 3 factors over 4, 4 factors over 2, dense "
+             "and sparse classes; named-alphabet ordered pairs (gate/mprocess partners limited for qubit x qutrit); joint "
+             "factor x single factor in 3 interleavings; embedding of every 1-qutrit catalogue and alphabet object with "
+             "statistics against all states x POVMs and two-step chains",
+    "thorough": "as quick plus: states on 4 subsystems with two qutrits, Hermitian-basis variant on 3 subsystems, qutrit x "
+                "qutrit channels, all 8 three-qubit channel type patterns with the flat call forms, ensembles on 3 subsystems "
+                "of all dims and on 4 qubits, bases 3 factors over 6 / 4 factors over 3, all named gate pairs for qubit x "
+                "qutrit and limited partners for qutrit x qutrit, joint factors on two qutrits, 2-qutrit -> 4-qubit embedding "
+                "of states and POVMs",
 }
 EXHAUSTIVE = {"quick": True, "thorough": True}
 CASE_TIMEOUT = 900
+CHUNK = 2
 
 NAMES = (3, 5, 12, 40)      # subsystem names by rank (ascending, not contiguous, not equal to positions)
 COUNTS = (2, 3, 4, 5)       # outcome counts / ensemble sizes by rank: pairwise different
@@ -591,6 +600,125 @@ def ex_pairs(p, seed):
     return out
 
 
+# ---- joint (non-product) factor on two subsystems x factor on a third, names interleaved ----------------
+
+JOINT_COUNT = 5      # outcome count of the joint POVM / instrument: different from COUNTS[0..2]
+JOINT_SPECTRA = {4: [0.4, 0.3, 0.2, 0.1], 6: [0.3, 0.25, 0.2, 0.15, 0.07, 0.03], 9: [0.2, 0.18, 0.16, 0.14, 0.11, 0.09, 0.06, 0.04, 0.02]}
+
+
+def permute_op(X, cur, dimmap):
+    """operator on subsystems listed in the order `cur` (ranks) -> the same operator with subsystems ascending"""
+    ds = [dimmap[r] for r in cur]
+    n = len(cur)
+    T = np.asarray(X).reshape(ds + ds)
+    order = sorted(range(n), key=lambda a: cur[a])
+    T = T.transpose(order + [n + a for a in order])
+    D = int(np.prod(ds))
+    return T.reshape(D, D)
+
+
+def ex_joint(p, seed):
+    from quara.objects.operators import tensor_product
+    from quara.objects.composite_system import CompositeSystem
+    out = Out()
+    kind, jd, sd, place = p["kind"], p["jd"], p["sd"], p["place"]
+    jr = [(1, 2), (0, 2), (0, 1)][place]
+    sr = [0, 1, 2][place]
+    dimmap = {jr[0]: jd[0], jr[1]: jd[1], sr: sd}
+    dims = [dimmap[r] for r in range(3)]
+    DJ = jd[0] * jd[1]
+    cJ = CompositeSystem([esys(jr[0], jd[0], 0)[0], esys(jr[1], jd[1], 0)[0]])
+    single = make_factor(kind, sr, sd, 0, seed)
+    # the joint factor: reference data (dense) + quara object through the public constructor
+    if kind == "S":
+        ops_J = [R.hermitian_from(JOINT_SPECTRA[DJ], R.generic_unitary(DJ, seed, salt=2))]
+        obj_J = A.q_state(cJ, ops_J[0])
+        ops_S = single.dense
+    elif kind == "P":
+        ops_J = A.povm_generic(DJ, JOINT_COUNT, seed, salt=13)
+        obj_J = A.q_povm(cJ, ops_J)
+        ops_S = single.dense
+    elif kind == "G":
+        ops_J = [A.isometry_blocks(DJ, 2, seed, salt=17)]
+        obj_J = A.q_gate(cJ, ops_J[0])
+        ops_S = single.dense
+    else:
+        P = A.povm_generic(DJ, JOINT_COUNT, seed, salt=19)
+        ops_J = [[R.generic_unitary(DJ, seed, salt=x + 1) @ sqrtm_psd(M)] for x, M in enumerate(P)]
+        obj_J = A.q_mprocess(cJ, ops_J)
+        ops_S = single.dense
+    cJ_count = None if kind in "SG" else JOINT_COUNT
+    counts_by_name = []     # outcome counts in the order (joint, single)
+    D = int(np.prod(dims))
+    cur = [jr[0], jr[1], sr]
+    if kind in "SP":
+        exp = np.array([[permute_op(np.kron(a, b), cur, dimmap).ravel() for b in ops_S] for a in ops_J])
+    else:
+        exp = np.array([[sum(np.kron(K, K.conj()) for K in [permute_op(np.kron(ka, kb), cur, dimmap) for ka in a for kb in b]).ravel()
+                         for b in ops_S] for a in ops_J])
+    # exp[x_joint, x_single, :]
+    typ_name = {"S": "state", "P": "povm", "G": "gate", "M": "mprocess"}[kind]
+    want_es = [esys(r, dimmap[r], 0)[0] for r in range(3)]
+    n_eval = 0
+    for order in ("JS", "SJ"):
+        ops = (obj_J, single.obj) if order == "JS" else (single.obj, obj_J)
+        names = ([NAMES[r] for r in jr] + [NAMES[sr]]) if order == "JS" else ([NAMES[sr]] + [NAMES[r] for r in jr])
+        srt = "sorted" if names == sorted(names) else "unsorted"
+        cfg = "joint-%s:n=%s:%s" % ("left" if order == "JS" else "right", "2+1" if order == "JS" else "1+2", srt)
+        where = "tensor_product:%s_%s" % (typ_name, typ_name)
+        ok, val = A.call(tensor_product, *ops)
+        out.ops += 1
+        n_eval += 1
+        out.count("joint_judged")
+        if srt == "unsorted":
+            out.count("joint_interleaved")
+        if not ok:
+            out.fail("%s:raises-%s:%s" % (where, slug(val), cfg), "joint factor on names %r, single on %r, dims(by name) %r: %s" % (
+                [NAMES[r] for r in jr], NAMES[sr], dims, A.fmt_exc(val)))
+            continue
+        typ, shape, elems, _, csyss = observe(val)
+        out.traces += 1
+        if typ != typ_name:
+            out.fail("%s:result-type:%s" % (where, cfg), "got %s" % typ)
+            continue
+        got_es = list(csyss[0].elemental_systems)
+        if len(got_es) != 3 or not all(a is b for a, b in zip(got_es, want_es)):
+            out.fail("%s:composite-system-order:%s" % (where, cfg), "names %r" % [e.name for e in got_es])
+            continue
+        Bimp = impl_bflat(csyss[0])
+        Bref = prod_bflat(dims, 0)
+        if Bimp.shape != Bref.shape or np.abs(Bimp - Bref).max() > 1e-12:
+            out.fail("composite_system:product-basis:dims=%s" % ("x".join(map(str, dims))), "basis of the result is not the product basis")
+            continue
+        counts = tuple(c for c in (cJ_count, single.count) if c is not None)
+        if tuple(sorted(shape)) != tuple(sorted(counts)):
+            out.fail("%s:reported-shape-not-factor-counts:%s" % (where, cfg), "reported %r, factors (joint, single) %r" % (shape, counts))
+            continue
+        e = exp.reshape(tuple(c if c is not None else 1 for c in (cJ_count, single.count)) + (-1,))
+        e = e.reshape(counts + (e.shape[-1],))
+        axis_src = [counts.index(m) for m in shape]
+        e = np.transpose(e, axis_src + [len(counts)]).reshape(-1, e.shape[-1])
+        if kind in "SP":
+            got = np.array(elems) @ Bimp
+        else:
+            T = Bimp.T
+            Ti = np.linalg.inv(T)
+            got = np.array([(T @ h @ Ti).ravel() for h in elems])
+        if got.shape != e.shape:
+            out.fail("%s:result-size:%s" % (where, cfg), "%r instead of %r" % (got.shape, e.shape))
+            continue
+        err = float(np.abs(got - e).max())
+        if err > ATOL * 10:
+            lay = len(counts) >= 1 and match_permutation(list(got), list(e), ATOL * 10)
+            out.fail("%s:%s:%s" % (where, "outcome-layout" if lay else "wrong-operator", cfg),
+                     "dense operator differs from the re-ordered Kronecker product by %.3e (dims by name %r)" % (err, dims))
+            continue
+        out.count("joint_verified")
+    inner(out, n_eval - 1)
+    out.outcome = "joint:%s" % ("ok" if not out.fails else "fail")
+    return out
+
+
 # ---- matrix bases -------------------------------------------------------------------------------------
 
 BASIS_KINDS = {"pauli": 2, "npauli": 2, "comp2": 2, "herm2": 2, "gm": 3, "ngm": 3, "comp3": 3}
@@ -1022,7 +1150,8 @@ def families(tier, seed):
     fams = []
     max_q4 = 1 if quick else 2
     for name, ch in (("state", "S"), ("povm", "P")):
-        cases = arrangements({2: [ch * 2], 3: [ch * 3], 4: [ch * 4]}, lambda n, dims: n < 4 or n_qutrits(dims) <= max_q4)
+        mq = max_q4 if ch == "S" else 1     # POVMs: the operator permutation is the states' one; outcome lists do not depend on dims
+        cases = arrangements({2: [ch * 2], 3: [ch * 3], 4: [ch * 4]}, lambda n, dims: n < 4 or n_qutrits(dims) <= mq)
         cases += arrangements({2: [ch * 2]} if quick else {2: [ch * 2], 3: [ch * 3]}, lambda n, dims: True, bvs=(1,))
         cases.sort(key=lambda c: (len(c["dims"]), n_qutrits(c["dims"])))
         fams.append((name, cases))
@@ -1046,7 +1175,7 @@ def families(tier, seed):
     # bases
     cases = []
     kinds2 = list(BASIS_KINDS)
-    kinds3 = ["npauli", "comp2", "ngm"] if quick else ["pauli", "npauli", "comp2", "gm", "ngm", "comp3"]
+    kinds3 = ["pauli", "npauli", "comp2", "ngm"] if quick else ["pauli", "npauli", "comp2", "gm", "ngm", "comp3"]
     kinds4 = ["npauli", "ngm"] if quick else ["npauli", "comp2", "ngm"]
     for cls in ("dense", "sparse"):
         for seq in itertools.product(kinds2, repeat=2):
@@ -1072,6 +1201,16 @@ def families(tier, seed):
             for a in na:
                 cases.append({"kind": kind, "dims": list(dims), "a": a, "partners": list(nb)})
     fams.append(("pairs", cases))
+    # joint factor on two subsystems x single factor, names interleaved
+    cases = []
+    for kind in "SPGM":
+        for jd in ((2, 2), (2, 3), (3, 2)) + (() if quick else ((3, 3),)):
+            for sd in (2, 3):
+                if kind in "GM" and (jd != (2, 2) or sd != 2):
+                    continue            # cost wall: (d1 d2)^2-square permutation
+                for place in (0, 1, 2):
+                    cases.append({"kind": kind, "jd": list(jd), "sd": sd, "place": place})
+    fams.append(("joint", cases))
     # embedding
     cases = []
     for kind in ("state", "povm", "gate", "mprocess"):
@@ -1092,7 +1231,7 @@ def families(tier, seed):
 def execute(family, params, seed):
     if family in ("state", "povm", "channel", "ensemble"):
         return ex_arrangement(params, seed)
-    return {"pairs": ex_pairs, "basis": ex_basis, "embed": ex_embed, "embed2": ex_embed2}[family](params, seed)
+    return {"pairs": ex_pairs, "joint": ex_joint, "basis": ex_basis, "embed": ex_embed, "embed2": ex_embed2}[family](params, seed)
 
 
 def guards(summary):
@@ -1102,7 +1241,7 @@ def guards(summary):
             "step:mprocess_mprocess", "step:state_ensemble", "step:ensemble_state", "step:ensemble_ensemble",
             "step:basis_dense", "step:basis_sparse", "steps_unsorted", "steps_sorted", "steps_verified",
             "n4_arrangements", "unsorted_arrangements", "layout_judged_unequal_counts", "oracle_order_sensitive",
-            "oracle_axis_sensitive", "dense_checks", "product_statistics", "flat_forms", "basis_verified", "pairs_judged",
+            "oracle_axis_sensitive", "dense_checks", "product_statistics", "flat_forms", "basis_verified", "pairs_judged", "joint_judged", "joint_interleaved", "joint_verified",
             "emb_objects_state", "emb_objects_povm", "emb_objects_gate", "emb_objects_mprocess", "emb_stats",
             "emb_stats_nondeterministic"]
     for k in need:
